@@ -226,7 +226,7 @@ func TestExhaustive(t *testing.T) {
 	if vh.Thorough() {
 		sizes = append(sizes, 9, 10, 11, 12, 13, 14, 15, 17, 31, 32, 33, 34, 64)
 	}
-	fills := vh.Scale(1, 4)
+	fills := vh.Scale(2, 4)
 	rng := rand.New(rand.NewSource(vh.Seed()))
 	n := 0
 	for _, draft := range []int{2, 3} {
@@ -235,7 +235,7 @@ func TestExhaustive(t *testing.T) {
 				for f := 0; f < fills; f++ {
 					p := make([]byte, l)
 					rng.Read(p)
-					if f == 3 {
+					if f == 1 {
 						for i := range p { // octets that look like the domain-separation flags
 							p[i] = byte(i & 1)
 						}
